@@ -7,6 +7,11 @@ def max_sends(retries):
     return 1 + retries
 
 
+def pause_budget(retries, backoff):
+    """the back-off pauses of ONE call: exponential from `backoff`, one per attempt at most -- whatever the client did before"""
+    return sum((2 ** k) * backoff for k in range(retries + 1))
+
+
 def time_budget(retries, timeout, backoff):
     """upper bound of the virtual time one call may take: every attempt may wait one timeout per
     logical read (two per attempt: header + body), plus the exponential back-off pauses, plus slack"""
